@@ -31,17 +31,19 @@ func init() {
 			checkC20Fn(c)
 		}}
 	props["C17"] = propRun{
-		rule: "random texts (0-14 words, long words, newlines, tabs, multi-byte runes, some arbitrary bytes) x widths -4..35 x prefixes; non-trivial = the result has more than one line; distinct per (text, width)",
+		rule: "(a) wrapText on random texts (long words, newlines, tabs, multi-byte runes, arbitrary bytes) x widths -4..35 x prefixes; (b) WriteHelp of generated declarations (non-ASCII names, value names, choices, nested groups, positional arguments, selected command chains) under a real pty of width 1..300; non-trivial = more than one output line; distinct per (text,width) / case",
 		run: func(c *Ctx) {
-			c.N = budget(c.Tier, 4000, 300000)
+			c.N = budget(c.Tier, 3000, 300000)
 			checkC17Wrap(c)
+			checkC17Help(c, budget(c.Tier, 400, 40000))
 		}}
 	props["C19"] = propRun{
-		rule: "tags rendered from random (key, value) lists with strconv.Quote and random blanks, one third mutated at a random byte position; distinct per tag string",
+		rule: "(a) tags rendered from random (key, value) lists with strconv.Quote and random blanks, one third mutated at a random byte position, through the scanner; (b) generated declarations (15% deliberately malformed / colliding / over-long short names / defaults on flags) built on the real library and in the model, full dump of the public model compared, attributes checked against reflect.StructTag; distinct per tag / declaration",
 		run: func(c *Ctx) {
-			c.N = budget(c.Tier, 4000, 300000)
+			c.N = budget(c.Tier, 3000, 300000)
 			checkC19Scan(c)
-			checkStdlibModel(c, budget(c.Tier, 500, 20000))
+			checkStdlibModel(c, budget(c.Tier, 400, 20000))
+			checkC19Model(c, budget(c.Tier, 400, 40000))
 		}}
 	props["C02"] = propRun{
 		rule: "(a) option tokens in all spellings over ASCII / multi-byte / invalid names and arbitrary values through the splitting functions; (b) metamorphic groups: one generated declaration and surrounding argument vector, one occurrence of one option rendered as -xV, -x=V, -x V, --name=V, --name V and quoted forms; (c) random whole-parser cases; distinct per token / group",
@@ -153,7 +155,7 @@ func GenMixedCase(c *Ctx, p Profile, kinds []string, nops int) *Case {
 		case "iniwrite":
 			cs.Ops = append(cs.Ops, Op{Kind: "iniwrite", Bits: uint(c.Rng.Intn(8)) * 2})
 		case "help":
-			cs.Ops = append(cs.Ops, Op{Kind: "help", Cols: []int{80, 40, 20, 1, 200, 33, 61}[c.Rng.Intn(7)]})
+			cs.Ops = append(cs.Ops, Op{Kind: "help", Cols: effCols([]int{80, 40, 20, 1, 200, 33, 61}[c.Rng.Intn(7)])})
 		case "man":
 			cs.Ops = append(cs.Ops, Op{Kind: "man"})
 		case "complete":
@@ -204,6 +206,43 @@ func init() {
 }
 
 func init() {
+	props["C13"] = propRun{
+		rule: "pairs over one generated declaration: an INI text with 1-3 entries naming one option (by ini-name in either case, field name, namespaced long name or short name, under the global section or a group section in any letter case, normal or as-defaults mode) read into one fresh parser, and the corresponding --long=value flags parsed by another; the option must end with the same value; the expected target of the name is computed independently from the documented priority; distinct per (text, argv); plus mixed ini operations for the model tie",
+		run: func(c *Ctx) {
+			checkC13(c, budget(c.Tier, 600, 60000))
+			runMixedCases(c, budget(c.Tier, 150, 15000), defaultProfile, []string{"iniparse", "parse"}, 3, func(cr *CaseResult) { oracleNoPanic(c, cr) })
+		}}
+	props["C05"] = propRun{
+		rule: "declarations of 2-5 options (string, int, []string, []int), each independently with/without a program-stored value, default tag(s), env tag (variable set or unset, env-delim, optional env-namespace and delimiter), INI entries and command-line occurrences, every source carrying a distinct recognisable value; three orders (INI then CLI; as-defaults INI then CLI; CLI then as-defaults INI); expected final value computed from the ranking; distinct per case text; plus mixed operations for the model tie",
+		run: func(c *Ctx) {
+			checkC05(c, budget(c.Tier, 600, 60000))
+			p := defaultProfile
+			p.Env = 0.4
+			p.Defaults = 0.4
+			p.InitVals = 0.4
+			runMixedCases(c, budget(c.Tier, 150, 15000), p, []string{"iniparse", "parse", "parse"}, 3, func(cr *CaseResult) { oracleNoPanic(c, cr) })
+		}}
+	props["C15"] = propRun{
+		rule: "generated declarations with pre-populated multi-entry maps, one key set from several INI sections, then ini read, parse, help, man, ini write and completion; every case is rebuilt and re-run 8 (quick) / 32 (thorough) times in-process and all observations must be byte-identical (Go randomises every map range); distinct per case",
+		run: func(c *Ctx) {
+			checkC15(c, budget(c.Tier, 150, 6000), budget(c.Tier, 8, 32))
+		}}
+}
+
+func init() {
+	props["C16"] = propRun{
+		rule: "generated declarations in which every option description carries a unique marker and every masked default a unique secret; an active command chain is selected by parsing a command path; WriteHelp and WriteManPage are compared with the model byte for byte and scanned: visible options listed, markers of hidden items and secrets absent; distinct per case",
+		run: func(c *Ctx) {
+			checkC16(c, budget(c.Tier, 500, 50000))
+		}}
+	props["C18"] = propRun{
+		rule: "generated declarations (Completer-typed options and positionals, hidden options, nested commands) and argument vectors made of a plausible prefix and a partial last word (long/short prefixes, --name=partial, -xpartial, command prefixes, bare dash); completion list compared with the model; sortedness and hidden-name oracles; distinct per case",
+		run: func(c *Ctx) {
+			checkC18(c, budget(c.Tier, 800, 80000))
+		}}
+}
+
+func init() {
 	props["DBG2"] = propRun{rule: "debug", run: func(c *Ctx) {
 		p := defaultProfile
 		kinds := strings.Split(os.Getenv("VERIF_KINDS"), ",")
@@ -242,6 +281,11 @@ func main() {
 		os.Exit(2)
 	}
 	c.LoadKnown(*known)
+	ptyOK = probePty()
+	termCols = currentCols()
+	if !ptyOK {
+		c.R.Notes = append(c.R.Notes, fmt.Sprintf("no pty available: help is rendered at the width of fd 0 (%d) only", termCols))
+	}
 	pr.run(c)
 	c.Finish(start, pr.rule, *out)
 	fmt.Printf("harness %s %s seed=%d evaluations=%d distinct=%d disagreements=%d failures=%d known=%d wall=%.1fs\n",
